@@ -543,10 +543,10 @@ def spec_triplet(flag, data):
 
 
 @kernel('C04', funcs=['ttLib/woff2.py:WOFF2GlyfTable._encodeTriplets', 'ttLib/woff2.py:WOFF2GlyfTable._decodeTriplets'],
-        bounds='the WOFF2 glyf-transform point encoding for n in 1..2 points: every coordinate delta (dx, dy) over int16 x int16 and the on-curve bit symbolic '
+        bounds='the WOFF2 glyf-transform point encoding for one point (the encoder and decoder treat points independently; two points square the path count and did not finish in 60 CPU-minutes, so sequences of points are outside the claim): every coordinate delta (dx, dy) over int16 x int16 and the on-curve bit symbolic '
                '(all six size classes and their boundaries 1280 / 65 / 769 / 4096 are solver forks): the flag + data bytes decode, by a decoder written '
                'from the WOFF2 spec table, to the same deltas; fontTools\' own decoder returns the same points',
-        shims=['array', 'bytes'], quick=[dict(n=1)], thorough=[dict(n=1), dict(n=2)], max_paths=100000)
+        shims=['array', 'bytes'], quick=[dict(n=1)], thorough=[dict(n=1)], max_paths=100000)
 def woff2_triplets_roundtrip(n):
     import types
     pts, flags = [], []
